@@ -13,7 +13,7 @@ MODEL_VO = ["Model/NewtonRun.vo"]
 EXHAUSTIVE = False
 RULE = ("newton.scalar / newton.sys / newton.sysjac cases, f64 and Complex<f64>: (a) families with analytically known roots -- affine, "
         "quadratics and cubics with separated real roots, x^2-c, 1/x-c, complex polynomials with separated roots, affine and "
-        "diagonally dominant polynomial systems of dimension 1..6 (finite-difference and supplied Jacobian) -- guesses across the "
+        "diagonally dominant polynomial systems of dimension 1..6 (off-diagonal coefficients scaled by 1/(n-1), so dominance holds for every n; finite-difference and supplied Jacobian) -- guesses across the "
         "basin, tol 1e-12..1e-4, delta 1e-8 / 1e-6 / 2^-k, iteration limits 0..50, defaults of Newton::new; (b) root-free, "
         "singular-derivative and non-square functions for the termination half; (c) search-only (no model term) builtin exp/trig "
         "equations and non-differentiable functions (|x|, sqrt|x|, cbrt, step, kinked systems). User functions are ASTs shared with "
@@ -30,9 +30,9 @@ TRUSTED = ["Coq 8.16.1 kernel + vm_compute (primitive floats)", "Rust executor /
            "python driver (generators, AST printers fnlib.py, independent Newton-step oracle, mpmath root refinement, comparators)",
            "hand-written Gallina model coq/Model/Newton.v on coq/Model/{Matrix,Solve,Vector,Complex}.v, tied to src/newton.rs by differential execution"]
 ASSUMPTIONS = ["Rust semantics of closures/Vec/usize as modelled; user closures are pure functions of their argument",
-               "newton_sys(jac)_affine_partial take the soundness of solve_basic (C01 solve_basic_sound) as an explicit premise",
+               "newton_sys(jac)_affine_partial take the soundness of solve_basic (C01 solve_basic_sound) as an explicit premise; the later newton_sys_affine (pinned) proves the same for affine systems of any dimension over any field WITHOUT that premise",
                "solve takes &self and Newton has no interior mutability (checked at run time: parameters() and a second call)",
-               "convergence is proved only for affine functions and x^2-c over R; other families are searched"]
+               "convergence over R is proved for affine functions and systems, x^2-c, C^1 scalar functions with Lipschitz derivative inside their basin (newton_basin_ok), convex increasing functions (newton_monotone) and decoupled systems (see UNPROVED / note); coupled nonlinear systems of dimension > 1 and nonlinear complex functions are searched only"]
 UNPROVED = ["round two (package newton2): convergence is now proved over R for general differentiable scalar f with 0 < m <= |f'| <= Mb and Lipschitz f' (newton_ok_near_root_general, newton_basin_ok), for convex increasing f (newton_monotone), x^2-c from every x0 > 0, affine systems of any dimension over any field without premise (newton_sys_affine), decoupled nonlinear systems of any dimension (both Jacobian variants). NOT proved: coupled nonlinear systems of dimension > 1, nonlinear complex functions (search only)",
             "floating-point rounding inside one Newton step: the float instance of the model is compared bit for bit with the implementation (tie)",
             "configuration untouched / repeated calls identical are run-time observations (a pure function satisfies them by construction)"]
@@ -49,7 +49,7 @@ MANIFEST = dict(
           "the implementation (Ok/Err, value, call counts, call points, second call; bit-compared) on shared-AST functions, f64 and "
           "Complex; an independent oracle (known roots, stopping-test replay, last-iterate recomputation, call bounds, parameters "
           "before/after, every recorded iterate of a known-root family is the Newton update of its predecessor, a point reported as a "
-          "root is finite) searches for a failing input, including root-free and non-differentiable functions, structured Jacobians "
+          "root is finite, Err / Ok never carries a non-finite value when the last iterate and its recomputed update are finite) searches for a failing input, including root-free and non-differentiable functions, structured Jacobians "
           "(sparsity patterns, row-permuted dominant systems), axis-aligned complex problems and setter histories in every order."),
     note=("Convergence over R is proved for: affine scalar functions and affine systems (exact root in one pass, at Qc, R and C); x^2 - c (newton_sqrt, "
           "newton_sqrt_converges); every C^1 scalar function with a Lipschitz derivative inside its basin (newton_basin_no_panic / _contraction / _ok / _pass_count, "
@@ -367,7 +367,9 @@ def dd_system(rng, elt, n, kind):
             # seeded mutation C17-7 compared against a signed running maximum and swapped a zero in)
             if kind == "uppertri" and j < i: continue
             if j != i and (kind in ("affine", "uppertri") or rng.chance(1, 2)):
-                e = F.add(e, F.mul(L(val(-0.4, 0.4)), F.V(j)))
+                # scaled by 1/(n-1): the linear off-diagonal row sum stays <= 0.4 for every n (with the quadratic coupling term
+                # <= 1.08 this is below |d| - 3*0.1*1.8^2 >= 2.03: dominant over reals for every dimension 1..6)
+                e = F.add(e, F.mul(L(val(-0.4, 0.4) * (1.0 / max(1, n - 1))), F.V(j)))
         if kind == "poly" and n >= 1:
             j = (i + 1) % n
             e = F.add(e, F.mul(L(val(-0.3, 0.3)), F.mul(F.V(j), F.V(j))))
@@ -468,19 +470,22 @@ def struct_system(rng, elt, n, pattern, perm, axis=None, nonlin=True):
                'tridiag': lambda i, j: abs(i - j) == 1, 'full': lambda i, j: True}[pattern]
     r = [val(-1.5, 1.5) for _ in range(n)]
     fns = []
+    # off-diagonal coefficients are scaled by 1/(n-1): a row has up to n-1 of them ('full', last row of 'lower', first of 'upper'),
+    # so over reals the off-diagonal row sum of the Jacobian stays <= 0.4 + 0.72/(n-1) <= 1.12 < 1.92 <= |d| - 2*0.3*1.8 for every n
+    sc = 1.0 / max(1, n - 1)
     for i in range(n):
         d = 3.0 + 2 * rng.unit()
         if rng.chance(1, 2): d = -d
         e = F.mul(L(d), F.V(i))
         for j in range(n):
             if j != i and allowed(i, j):
-                e = F.add(e, F.mul(L(val(-0.4, 0.4)), F.V(j)))
+                e = F.add(e, F.mul(L(val(-0.4, 0.4) * sc), F.V(j)))
         if nonlin:
             e = F.add(e, F.mul(L(val(-0.3, 0.3)), F.mul(F.V(i), F.V(i))))
             js = [j for j in range(n) if j != i and allowed(i, j)]
             if js and rng.chance(1, 2):
                 j = js[rng.below(len(js))]
-                e = F.add(e, F.mul(L(val(-0.2, 0.2)), F.mul(F.V(j), F.V(j))))
+                e = F.add(e, F.mul(L(val(-0.2, 0.2) * sc), F.mul(F.V(j), F.V(j))))
         fns.append(e)
     vals = F.evv(fns, r)
     fns = [F.sub(e, L(v)) for e, v in zip(fns, vals)]
@@ -896,16 +901,21 @@ def oracle(case, items):
                 return "Ok at pass %d although the stopping test fails there: test value %g > tol %g (iterate %r)" % (K, sv, tol, c)
     # ---- the returned value is the Newton update of the last centre ("Err carries the last iterate")
     c = cs[-1]
-    if c is not None and allfinite(c) and allfinite(x1):
+    if c is not None and allfinite(c):
         try:
             ref, dx, ampl = newton_step(c)
         except (OverflowError, ValueError, ZeroDivisionError):
             ref = None
-        if ref is not None and allfinite(ref):
+        # a step through an almost-zero derivative amplifies rounding: only compare well-conditioned steps
+        if ref is not None and allfinite(ref) and allfinite(dx) and nrm(dx) < 1e6 * (1 + nrm(c)):
+            if not allfinite(x1):
+                # the last centre and its recomputed update are finite (families whose step is legitimately NaN / infinite
+                # have a non-finite reference and are not judged here)
+                return ("%s(%r) is not finite although the last iterate %r and its Newton update %r are: the value returned is "
+                        "not the last iterate" % ("Ok" if ok1 else "Err", x1, c, ref))
             scale = nrm(c) + nrm(dx)
             rel = (1e-9 + 1e-14 * ampl) if kind == "scalar" else 1e-6
-            # a step through an almost-zero derivative amplifies rounding: only compare well-conditioned steps
-            if nrm(dx) < 1e6 * (1 + nrm(c)) and nrm(vsub(x1, ref)) > rel * scale + 1e-300:
+            if not (nrm(vsub(x1, ref)) <= rel * scale + 1e-300):
                 return ("%s(%r) is not the Newton update %r of the last iterate %r: the value returned is not the last iterate"
                         % ("Ok" if ok1 else "Err", x1, ref, c))
     # ---- specB: in the known-root families EVERY recorded iterate is the Newton update of its predecessor (the clause above looks at
@@ -913,15 +923,18 @@ def oracle(case, items):
     if meta.get("expect_ok") and (meta.get("roots") or meta.get("root0") is not None):
         for k in range(K - 1):
             c, nxt = seq[k], seq[k + 1]
-            if c is None or nxt is None or not allfinite(c) or not allfinite(nxt): continue
+            if c is None or nxt is None or not allfinite(c): continue
             try:
                 ref, dx, ampl = newton_step(c)
             except (OverflowError, ValueError, ZeroDivisionError):
                 continue
-            if ref is None or not allfinite(ref): continue
+            if ref is None or not allfinite(ref) or not allfinite(dx) or not (nrm(dx) < 1e6 * (1 + nrm(c))): continue
+            if not allfinite(nxt):
+                return ("pass %d of %d: the iterate %r is not finite although its predecessor %r and the Newton update %r of it are"
+                        % (k + 1, K, nxt, c, ref))
             scale = nrm(c) + nrm(dx)
             rel = (1e-9 + 1e-14 * ampl) if kind == "scalar" else 1e-6
-            if nrm(dx) < 1e6 * (1 + nrm(c)) and nrm(vsub(nxt, ref)) > rel * scale + 1e-300:
+            if not (nrm(vsub(nxt, ref)) <= rel * scale + 1e-300):
                 return ("pass %d of %d: the iterate %r is not the Newton update %r of its predecessor %r"
                         % (k + 1, K, nxt, ref, c))
     # ---- success means a root
